@@ -29,6 +29,11 @@ var preludeParts = []struct{ sym, text string }{
 `},
 	{"(streq ", `(define-fun streq ((a Str) (b Str)) Bool (and (= (str-len a) (str-len b)) (forall ((i Int)) (=> (and (<= 0 i) (< i (str-len a))) (= (select (str-arr a) i) (select (str-arr b) i))))))
 `},
+	{"(strcat ", `(declare-fun strcat (Str Str) Str)
+(assert (forall ((a Str) (b Str)) (! (= (str-len (strcat a b)) (+ (str-len a) (str-len b))) :pattern ((strcat a b)))))
+(assert (forall ((a Str) (b Str) (i Int)) (! (=> (and (<= 0 i) (< i (str-len a))) (= (select (str-arr (strcat a b)) i) (select (str-arr a) i))) :pattern ((select (str-arr (strcat a b)) i)))))
+(assert (forall ((a Str) (b Str) (i Int)) (! (=> (and (<= (str-len a) i) (< i (+ (str-len a) (str-len b)))) (= (select (str-arr (strcat a b)) i) (select (str-arr b) (- i (str-len a))))) :pattern ((select (str-arr (strcat a b)) i)))))
+`},
 	{"(concat-def ", `(define-fun concat-def ((r Str) (a Str) (b Str)) Bool (and (forall ((i Int)) (! (=> (and (<= 0 i) (< i (str-len a))) (= (select (str-arr r) i) (select (str-arr a) i))) :pattern ((select (str-arr r) i)))) (forall ((i Int)) (! (=> (and (<= 0 i) (< i (str-len b))) (= (select (str-arr r) (+ (str-len a) i)) (select (str-arr b) i))) :pattern ((select (str-arr b) i))))))
 `},
 	{"(bytes-in-range ", `(define-fun bytes-in-range ((a (Array Int Int)) (n Int)) Bool (forall ((i Int)) (! (and (<= 0 (select a i)) (<= (select a i) 255)) :pattern ((select a i)))))
@@ -159,6 +164,25 @@ func (c *FnCtx) Emit(active map[*Oblig]bool) string {
 		body = append(body, fmt.Sprintf("(assert (=> %s %s))", f, okName(b)))
 	}
 	ax := c.includeAxioms()
+	if c.pureDecl["isAscii"] {
+		// every printable-ASCII string literal of the function is ASCII (a fact about constants)
+		var lits []string
+		for lit := range c.strLits {
+			lits = append(lits, lit)
+		}
+		sortStrings(lits)
+		for _, lit := range lits {
+			ok := len(lit) <= 48
+			for i := 0; i < len(lit); i++ {
+				if lit[i] < 0x20 || lit[i] > 0x7e {
+					ok = false
+				}
+			}
+			if ok {
+				ax = append(ax, "(assert (spec$isAscii "+c.strLits[lit]+"))")
+			}
+		}
+	}
 	var sb strings.Builder
 	var rest strings.Builder
 	sb.WriteString(preludeCore)
